@@ -34,7 +34,60 @@ with rsize (p : rprog) : nat :=
   | RWriteCol _ _ k | REndRow _ k | RWriteRow _ _ k => S (rsize k)
   | RFinishOne k => S (qsize k) | _ => 1%nat end.
 
-(* ---- rows (C06 / C07 at row level) ---- *)
+(* ================= helpers: rows ================= *)
+
+Ltac dm8 x := let q := fresh "q" in let m := fresh "m" in
+  pose proof (Nat.div_mod x 8 ltac:(discriminate));
+  pose proof (Nat.mod_upper_bound x 8 ltac:(discriminate));
+  set (q := (x / 8)%nat) in *; set (m := (x mod 8)%nat) in *; clearbody q m.
+
+Lemma p_write_cols_app bin cols r vs ws :
+  p_write_cols bin cols r (vs ++ ws) =
+    match p_write_cols bin cols r vs with
+    | Some r' => p_write_cols bin cols r' ws
+    | None => None end.
+Proof.
+  revert r. induction vs as [|v vs IH]; intro r; cbn [app p_write_cols].
+  - reflexivity.
+  - destruct (p_write_col bin cols r v) as [r1|]; [apply IH | reflexivity].
+Qed.
+
+(* ---- text ---- *)
+Lemma p_write_col_text cols r v r' :
+  cols <> [] -> p_write_col false cols r v = Some r' ->
+  exists bs, to_text v = ROk bs /\
+    r' = {| pr_cur := pr_cur r ++ bs; pr_data := pr_data r; pr_col := S (pr_col r) |}.
+Proof.
+  intros Hc H. destruct cols as [|c cols]; [congruence|].
+  cbn [p_write_col] in H. destruct (to_text v) as [bs| |]; try discriminate H.
+  injection H as <-. exists bs. split; reflexivity.
+Qed.
+
+Lemma text_cells_gen cols vs : cols <> [] -> forall r r',
+  Forall text_ok vs -> p_write_cols false cols r vs = Some r' ->
+  exists cs bs, tcells vs = Some cs /\ pr_cur r' = pr_cur r ++ bs /\
+    pr_data r' = pr_data r /\ pr_col r' = (pr_col r + length vs)%nat /\
+    forall n rest, c_text_cells (length vs + n) (bs ++ rest) =
+      match c_text_cells n rest with Some (cs', r0) => Some (cs ++ cs', r0) | None => None end.
+Proof.
+  intro Hc. induction vs as [|v vs IH]; intros r r' F H.
+  - cbn [p_write_cols] in H. injection H as <-. exists [], []. cbn [tcells length app Nat.add].
+    rewrite app_nil_r, Nat.add_0_r. repeat split.
+    intros n rest. destruct (c_text_cells n rest) as [[cs' r0]|]; reflexivity.
+  - cbn [p_write_cols] in H. inversion F as [|? ? Fv Fvs]; subst.
+    destruct (p_write_col false cols r v) as [r1|] eqn:E1; [|discriminate H].
+    destruct (p_write_col_text _ _ _ _ Hc E1) as (bs & Ht & ->).
+    destruct (IH _ _ Fvs H) as (cs & bs' & Hcs & Hcur & Hdata & Hcol & Hdec).
+    cbn [pr_cur pr_data pr_col] in *.
+    destruct (to_text_decode v bs 0 [] Fv Ht) as (c & Hc0 & _).
+    exists (c :: cs), (bs ++ bs'). cbn [tcells]. rewrite Hc0, Hcs.
+    split; [reflexivity|]. split; [rewrite Hcur, app_assoc; reflexivity|].
+    split; [exact Hdata|]. split; [cbn [length]; lia|].
+    intros n rest. cbn [length Nat.add]. rewrite <- app_assoc.
+    destruct (to_text_decode v bs (length vs + n) (bs' ++ rest) Fv Ht) as (c' & Hc' & Hd).
+    rewrite Hc0 in Hc'. injection Hc' as <-. rewrite Hd, Hdec.
+    destruct (c_text_cells n rest) as [[cs' r0]|]; reflexivity.
+Qed.
 
 (* text protocol: a row of n accepted cells is decoded, cell by cell, to the written contents *)
 Lemma text_row_decode cols vs r :
@@ -42,7 +95,269 @@ Lemma text_row_decode cols vs r :
   Forall text_ok vs ->
   p_write_cols false cols prow0 vs = Some r ->
   exists cs, tcells vs = Some cs /\ c_text_row (length cols) (pr_cur r) = Some cs.
-Admitted.
+Proof.
+  intros Hc Hl F H.
+  destruct (text_cells_gen cols vs Hc _ _ F H) as (cs & bs & Hcs & Hcur & _ & _ & Hdec).
+  exists cs. split; [exact Hcs|]. cbn [prow0 pr_cur app] in Hcur. rewrite Hcur.
+  unfold c_text_row. specialize (Hdec 0%nat []). rewrite Nat.add_0_r, app_nil_r in Hdec.
+  rewrite <- Hl, Hdec. cbn [c_text_cells]. rewrite app_nil_r. reflexivity.
+Qed.
+
+(* ---- binary ---- *)
+Definition blen (cols : list column) : nat := ((length cols + 7 + 2) / 8)%nat.
+Definition eff_cur (r : prow) : bytes :=
+  if Nat.eqb (pr_col r) 0 then pr_cur r ++ [x00] else pr_cur r.
+Definition eff_data (cols : list column) (r : prow) : bytes :=
+  if Nat.eqb (pr_col r) 0 then resize0 (pr_data r) (blen cols) else pr_data r.
+Definition nullbit (bm : bytes) (k : nat) : bytes :=
+  set_bit bm ((k + 2) / 8) (N.of_nat ((k + 2) mod 8)).
+
+Lemma set_bit_app bm vals i b : (i < length bm)%nat ->
+  set_bit (bm ++ vals) i b = set_bit bm i b ++ vals.
+Proof.
+  revert i. induction bm as [|x bm IH]; intros i H; cbn [length] in H; [lia|].
+  destruct i as [|i]; cbn [app set_bit]; [reflexivity|]. rewrite IH by lia. reflexivity.
+Qed.
+Lemma set_bit_length bm i b : length (set_bit bm i b) = length bm.
+Proof.
+  revert i. induction bm as [|x bm IH]; intros i; [reflexivity|].
+  destruct i; cbn [set_bit length]; [reflexivity | rewrite IH; reflexivity].
+Qed.
+
+Lemma blen_bound cols k : (k < length cols)%nat -> ((k + 2) / 8 < blen cols)%nat.
+Proof. unfold blen. intro H. dm8 (k + 2)%nat. dm8 (length cols + 7 + 2)%nat. lia. Qed.
+
+Lemma p_write_col_bin cols r v r1 bm vals :
+  cols <> [] ->
+  p_write_col true cols r v = Some r1 ->
+  eff_data cols r = bm ++ vals -> length bm = blen cols ->
+  exists c, nth_error cols (pr_col r) = Some c /\ pr_col r1 = S (pr_col r) /\
+    pr_cur r1 = eff_cur r /\
+    ((is_null v = true /\ pr_data r1 = nullbit bm (pr_col r) ++ vals) \/
+     (is_null v = false /\ exists bs, to_bin v c = ROk bs /\ pr_data r1 = bm ++ vals ++ bs)).
+Proof.
+  intros Hc H He Hl. unfold p_write_col in H.
+  destruct cols as [|c0 cols0] eqn:Ec; [congruence|]. rewrite <- Ec in *.
+  fold (blen cols) in H. fold (eff_data cols r) in H. fold (eff_cur r) in H.
+  destruct (nth_error cols (pr_col r)) as [c|] eqn:En; [|discriminate H].
+  exists c. split; [reflexivity|].
+  assert (Hk : (pr_col r < length cols)%nat) by (apply nth_error_Some; congruence).
+  destruct (is_null v) eqn:Enull.
+  - destruct (has_flag (c_flags c) NOT_NULL_FLAG); [discriminate H|]. injection H as <-.
+    cbn [pr_col pr_cur pr_data]. repeat split. left. split; [reflexivity|].
+    rewrite He. unfold nullbit. apply set_bit_app. rewrite Hl. apply blen_bound, Hk.
+  - destruct (to_bin v c) as [bs| |] eqn:Eb; try discriminate H. injection H as <-.
+    cbn [pr_col pr_cur pr_data]. repeat split. right. split; [reflexivity|].
+    exists bs. split; [reflexivity|]. rewrite He, app_assoc. reflexivity.
+Qed.
+
+Fixpoint set_nulls (bm : bytes) (k : nat) (vs : list value) : bytes :=
+  match vs with
+  | [] => bm
+  | v :: vs' => set_nulls (if is_null v then nullbit bm k else bm) (S k) vs'
+  end.
+Fixpoint bvals (vs : list value) (cs : list column) : option bytes :=
+  match vs, cs with
+  | [], _ => Some []
+  | v :: vs', c :: cs' =>
+      if is_null v then bvals vs' cs'
+      else match to_bin v c, bvals vs' cs' with
+           | ROk bs, Some r => Some (bs ++ r)
+           | _, _ => None end
+  | _ :: _, [] => None
+  end.
+
+Lemma set_nulls_length vs : forall bm k, length (set_nulls bm k vs) = length bm.
+Proof.
+  induction vs as [|v vs IH]; intros bm k; cbn [set_nulls]; [reflexivity|].
+  rewrite IH. destruct (is_null v); [apply set_bit_length | reflexivity].
+Qed.
+
+Lemma skipn_nth {A} (l : list A) k x : nth_error l k = Some x -> skipn k l = x :: skipn (S k) l.
+Proof.
+  revert k. induction l as [|y l IH]; intros [|k] H; try discriminate H.
+  - injection H as ->. reflexivity.
+  - cbn [nth_error] in H. change (skipn (S k) (y :: l)) with (skipn k l). rewrite (IH _ H). reflexivity.
+Qed.
+
+Lemma p_write_cols_bin cols vs : cols <> [] -> forall r r' bm vals,
+  p_write_cols true cols r vs = Some r' ->
+  eff_data cols r = bm ++ vals -> length bm = blen cols ->
+  exists vals', bvals vs (skipn (pr_col r) cols) = Some vals' /\
+    eff_data cols r' = set_nulls bm (pr_col r) vs ++ vals ++ vals' /\
+    eff_cur r' = eff_cur r /\ pr_col r' = (pr_col r + length vs)%nat.
+Proof.
+  intro Hc. induction vs as [|v vs IH]; intros r r' bm vals H He Hl; cbn [p_write_cols] in H.
+  - injection H as <-. exists []. cbn [bvals set_nulls length]. rewrite app_nil_r, Nat.add_0_r.
+    repeat split. exact He.
+  - destruct (p_write_col true cols r v) as [r1|] eqn:E1; [|discriminate H].
+    destruct (p_write_col_bin _ _ _ _ _ _ Hc E1 He Hl) as (c & Hn & Hcol & Hcur & Hd).
+    assert (Hnz : Nat.eqb (pr_col r1) 0 = false) by (rewrite Hcol; reflexivity).
+    assert (Ecur : eff_cur r1 = eff_cur r) by (unfold eff_cur at 1; rewrite Hnz; exact Hcur).
+    rewrite (skipn_nth _ _ _ Hn). cbn [bvals set_nulls length].
+    destruct Hd as [(Hnull & Hd) | (Hnull & bs & Hb & Hd)]; rewrite Hnull.
+    + destruct (IH r1 r' (nullbit bm (pr_col r)) vals H) as (vals' & Hbv & Hed & Hec & Hcl).
+      { unfold eff_data. rewrite Hnz. exact Hd. }
+      { unfold nullbit. rewrite set_bit_length. exact Hl. }
+      exists vals'. rewrite Hcol in *. split; [exact Hbv|]. split; [exact Hed|].
+      split; [congruence | lia].
+    + destruct (IH r1 r' bm (vals ++ bs) H) as (vals' & Hbv & Hed & Hec & Hcl).
+      { unfold eff_data. rewrite Hnz. exact Hd. }
+      { exact Hl. }
+      rewrite Hcol in *. rewrite Hb, Hbv. exists (bs ++ vals'). split; [reflexivity|].
+      split; [rewrite Hed, <- !app_assoc; reflexivity|]. split; [congruence | lia].
+Qed.
+
+(* bits *)
+Lemma nth_error_set_bit data i b j :
+  nth_error (set_bit data i b) j =
+    if Nat.eqb j i
+    then match nth_error data j with
+         | Some x => Some (b_of_N (N.lor (N_of_b x) (N.shiftl 1 b))) | None => None end
+    else nth_error data j.
+Proof.
+  revert i j. induction data as [|x data IH]; intros i j.
+  - cbn [set_bit]. destruct (Nat.eqb j i); destruct j; reflexivity.
+  - destruct i as [|i], j as [|j]; cbn [set_bit nth_error Nat.eqb]; try reflexivity. apply IH.
+Qed.
+
+Lemma testbit_setbyte x b q : b < 8 -> q < 8 ->
+  N.testbit (N_of_b (b_of_N (N.lor x (N.shiftl 1 b)))) q = N.testbit x q || (b =? q).
+Proof.
+  intros Hb Hq. rewrite N_of_b_of_N. change 256 with (2 ^ 8).
+  rewrite N.mod_pow2_bits_low by exact Hq.
+  rewrite N.lor_spec, N.shiftl_1_l, N.pow2_bits_eqb. reflexivity.
+Qed.
+
+
+Lemma bitmap_bit_nullbit bm k pos : ((k + 2) / 8 < length bm)%nat ->
+  bitmap_bit (nullbit bm k) pos = bitmap_bit bm pos || Nat.eqb pos (k + 2).
+Proof.
+  intro Hlt. unfold bitmap_bit, nullbit. rewrite nth_error_set_bit.
+  destruct (Nat.eqb_spec (pos / 8) ((k + 2) / 8)) as [E|E].
+  - destruct (nth_error bm (pos / 8)) as [x|] eqn:En.
+    + rewrite testbit_setbyte.
+      * f_equal. dm8 pos. dm8 (k + 2)%nat.
+        destruct (N.eqb_spec (N.of_nat m0) (N.of_nat m)); destruct (Nat.eqb_spec pos (k + 2)); try reflexivity; lia.
+      * dm8 (k + 2)%nat. lia.
+      * dm8 pos. lia.
+    + apply nth_error_None in En. lia.
+  - destruct (Nat.eqb_spec pos (k + 2)) as [->|_]; [congruence|]. rewrite orb_false_r. reflexivity.
+Qed.
+
+Definition null_at (vs : list value) (j : nat) : bool :=
+  match nth_error vs j with Some v => is_null v | None => false end.
+
+Lemma bitmap_set_nulls vs : forall bm k pos,
+  ((k + length vs + 1) / 8 < length bm \/ vs = [])%nat ->
+  bitmap_bit (set_nulls bm k vs) pos =
+    bitmap_bit bm pos || (if Nat.leb (k + 2) pos then null_at vs (pos - (k + 2)) else false).
+Proof.
+  induction vs as [|v vs IH]; intros bm k pos Hb; cbn [set_nulls].
+  - unfold null_at. destruct (Nat.leb (k + 2) pos); [destruct (pos - (k + 2))%nat|]; cbn [nth_error];
+      rewrite orb_false_r; reflexivity.
+  - destruct Hb as [Hb | Hb]; [|discriminate Hb]. cbn [length] in Hb.
+    assert (H1 : ((k + 2) / 8 < length bm)%nat).
+    { dm8 (k + 2)%nat. dm8 (k + S (length vs) + 1)%nat. lia. }
+    rewrite IH.
+    2:{ destruct vs as [|v' vs']; [right; reflexivity | left]. cbn [length] in *.
+        destruct (is_null v); [unfold nullbit; rewrite set_bit_length|];
+        replace (S k + S (length vs') + 1)%nat with (k + S (S (length vs')) + 1)%nat by lia; exact Hb. }
+    assert (E : bitmap_bit (if is_null v then nullbit bm k else bm) pos =
+                bitmap_bit bm pos || (is_null v && Nat.eqb pos (k + 2))).
+    { destruct (is_null v); [rewrite bitmap_bit_nullbit by exact H1; reflexivity |
+        rewrite orb_false_r; reflexivity]. }
+    rewrite E, <- orb_assoc. f_equal. unfold null_at.
+    destruct (Nat.eqb_spec pos (k + 2)) as [->|Hne].
+    + rewrite andb_true_r. replace (Nat.leb (S k + 2) (k + 2)) with false by (symmetry; apply Nat.leb_gt; lia).
+      rewrite Nat.leb_refl, Nat.sub_diag. cbn [nth_error]. rewrite orb_false_r. reflexivity.
+    + rewrite andb_false_r. cbn [orb].
+      destruct (Nat.leb_spec (S k + 2) pos) as [Hle|Hle].
+      * replace (Nat.leb (k + 2) pos) with true by (symmetry; apply Nat.leb_le; lia).
+        replace (pos - (k + 2))%nat with (S (pos - (S k + 2))) by lia. reflexivity.
+      * replace (Nat.leb (k + 2) pos) with false by (symmetry; apply Nat.leb_gt; lia). reflexivity.
+Qed.
+
+Lemma bin_cells_decode vs : forall cs idx bm vals rest,
+  length vs = length cs -> Forall val_ok vs -> bvals vs cs = Some vals ->
+  (forall j, (j < length vs)%nat -> bitmap_bit bm (idx + j + 2) = null_at vs j) ->
+  c_bin_cells cs idx bm (vals ++ rest) =
+    Some (map (fun vc => bcell (fst vc) (snd vc)) (combine vs cs), rest).
+Proof.
+  induction vs as [|v vs IH]; intros cs idx bm vals rest Hl F Hb Hbit.
+  - destruct cs; [|discriminate Hl]. cbn [bvals] in Hb. injection Hb as <-. reflexivity.
+  - destruct cs as [|c cs]; [discriminate Hl|]. cbn [length] in Hl. injection Hl as Hl.
+    inversion F as [|? ? Fv Fvs]; subst.
+    cbn [bvals] in Hb. cbn [c_bin_cells combine map fst snd].
+    pose proof (Hbit 0%nat ltac:(cbn [length]; lia)) as H0.
+    rewrite Nat.add_0_r in H0. unfold null_at in H0. cbn [nth_error] in H0. rewrite H0.
+    assert (Hbit' : forall j, (j < length vs)%nat -> bitmap_bit bm (S idx + j + 2) = null_at vs j).
+    { intros j Hj. specialize (Hbit (S j) ltac:(cbn [length]; lia)).
+      replace (S idx + j + 2)%nat with (idx + S j + 2)%nat by lia. exact Hbit. }
+    unfold bcell at 1. destruct (is_null v) eqn:En.
+    + rewrite (IH cs (S idx) bm vals rest Hl Fvs Hb Hbit'). reflexivity.
+    + destruct (to_bin v c) as [bs| |] eqn:Eb; try discriminate Hb.
+      destruct (bvals vs cs) as [vals'|] eqn:Ebv; [|discriminate Hb]. injection Hb as <-.
+      rewrite <- app_assoc, (to_bin_decode v c bs _ Fv Eb). cbn [obind].
+      rewrite (IH cs (S idx) bm vals' rest Hl Fvs Ebv Hbit'). reflexivity.
+Qed.
+
+Lemma eff_prow0 cols : eff_data cols prow0 = repeat x00 (blen cols) ++ [] /\ eff_cur prow0 = [x00].
+Proof.
+  unfold eff_data, eff_cur, prow0, resize0. cbn [pr_col pr_data pr_cur Nat.eqb length app].
+  rewrite firstn_nil, Nat.sub_0_r, app_nil_r. split; reflexivity.
+Qed.
+
+Lemma bitmap_bit_zero n pos : bitmap_bit (repeat x00 n) pos = false.
+Proof.
+  unfold bitmap_bit. destruct (nth_error (repeat x00 n) (pos / 8)) as [b|] eqn:E; [|reflexivity].
+  apply nth_error_In, repeat_spec in E. subst b. apply N.bits_0.
+Qed.
+
+(* the state after writing a complete binary row *)
+Lemma bin_row_shape cols vs r :
+  cols <> [] -> length vs = length cols ->
+  p_write_cols true cols prow0 vs = Some r ->
+  exists vals, bvals vs cols = Some vals /\ pr_cur r = [x00] /\
+    pr_data r = set_nulls (repeat x00 (blen cols)) 0 vs ++ vals /\ pr_col r = length cols.
+Proof.
+  intros Hc Hl H. destruct (eff_prow0 cols) as (Hd0 & Hc0).
+  destruct (p_write_cols_bin cols vs Hc _ _ _ _ H Hd0 (repeat_length _ _))
+    as (vals & Hbv & Hed & Hec & Hcol).
+  cbn [prow0 pr_col skipn Nat.add app] in *. exists vals.
+  assert (Hnz : Nat.eqb (pr_col r) 0 = false).
+  { rewrite Hcol, Hl. destruct cols; [congruence | reflexivity]. }
+  unfold eff_data in Hed. unfold eff_cur in Hec at 1. rewrite Hnz in *.
+  repeat split; try assumption; congruence.
+Qed.
+
+Lemma bitmap_final cols vs pos : length vs = length cols -> cols <> [] ->
+  bitmap_bit (set_nulls (repeat x00 (blen cols)) 0 vs) pos =
+    if Nat.leb 2 pos then null_at vs (pos - 2) else false.
+Proof.
+  intros Hl Hc. rewrite bitmap_set_nulls, bitmap_bit_zero; [reflexivity|].
+  left. rewrite repeat_length, Hl. unfold blen.
+  dm8 (0 + length cols + 1)%nat. dm8 (length cols + 7 + 2)%nat. lia.
+Qed.
+
+Lemma bin_row_decode' cols vs r :
+  cols <> [] -> length vs = length cols ->
+  Forall val_ok vs ->
+  p_write_cols true cols prow0 vs = Some r ->
+  c_bin_row cols (pr_cur r ++ pr_data r) =
+    Some (map (fun vc => bcell (fst vc) (snd vc)) (combine vs cols)).
+Proof.
+  intros Hc Hl Fv H.
+  destruct (bin_row_shape cols vs r Hc Hl H) as (vals & Hbv & Hcur & Hdata & _).
+  rewrite Hcur, Hdata. cbn [app c_bin_row]. change (byte_eqb x00 x00) with true. cbv iota.
+  fold (blen cols). unfold c_take. rewrite take_n_app.
+  2:{ rewrite set_nulls_length. apply repeat_length. }
+  cbn [obind]. rewrite <- (app_nil_r vals).
+  rewrite (bin_cells_decode vs cols 0 _ vals [] Hl Fv Hbv); [reflexivity|].
+  intros j Hj. rewrite (bitmap_final cols vs _ Hl Hc).
+  replace (Nat.leb 2 (0 + j + 2)) with true by (symmetry; apply Nat.leb_le; lia).
+  f_equal. lia.
+Qed.
 
 (* binary protocol: header byte, NULL bitmap with offset 2 marking precisely the NULL cells, then
    the non-NULL values in order; decoded with the advertised column types to exactly the values
@@ -53,7 +368,7 @@ Lemma bin_row_decode cols vs r :
   p_write_cols true cols prow0 vs = Some r ->
   c_bin_row cols (pr_cur r ++ pr_data r) =
     Some (map (fun vc => bcell (fst vc) (snd vc)) (combine vs cols)).
-Admitted.
+Proof. intros Hc Hl Fv _ H. apply bin_row_decode'; assumption. Qed.
 
 (* the bitmap itself: length (n+9)/8; bit c+2 is set iff cell c is NULL; every other bit is clear *)
 Lemma bin_row_bitmap cols vs r :
@@ -67,31 +382,760 @@ Lemma bin_row_bitmap cols vs r :
         | Lt => false
         | _ => match nth_error vs (pos - 2) with Some v => is_null v | None => false end
         end.
-Admitted.
+Proof.
+  intros Hc Hl H.
+  destruct (bin_row_shape cols vs r Hc Hl H) as (vals & Hbv & Hcur & Hdata & _).
+  exists (set_nulls (repeat x00 (blen cols)) 0 vs), vals. split; [exact Hdata|].
+  split; [rewrite set_nulls_length; apply repeat_length|].
+  intros pos _. rewrite (bitmap_final cols vs _ Hl Hc). unfold null_at.
+  destruct (Nat.compare_spec pos 2) as [->|Hlt|Hgt].
+  - reflexivity.
+  - replace (Nat.leb 2 pos) with false by (symmetry; apply Nat.leb_gt; lia). reflexivity.
+  - replace (Nat.leb 2 pos) with true by (symmetry; apply Nat.leb_le; lia). reflexivity.
+Qed.
 
 (* a NULL offered for a NOT NULL column, or a value the column type cannot carry, is refused *)
 Lemma write_col_refuses_null cols r v c :
   nth_error cols (pr_col r) = Some c -> is_null v = true ->
   has_flag (c_flags c) NOT_NULL_FLAG = true ->
   p_write_col true cols r v = None.
-Admitted.
+Proof.
+  intros Hn Hv Hf. unfold p_write_col. destruct cols as [|c0 cols0] eqn:Ec.
+  - destruct (pr_col r); discriminate Hn.
+  - rewrite Hn, Hv, Hf. reflexivity.
+Qed.
+
+(* ================= programs ================= *)
+
+Scheme qprog_mind := Induction for qprog Sort Prop
+  with rprog_mind := Induction for rprog Sort Prop.
+Combined Scheme qrprog_mutind from qprog_mind, rprog_mind.
+
+Lemma p_write_col_col bin cols r v r' : cols <> [] ->
+  p_write_col bin cols r v = Some r' -> pr_col r' = S (pr_col r).
+Proof.
+  intros Hc H. unfold p_write_col in H. destruct cols as [|c0 cols0]; [congruence|].
+  destruct bin.
+  - destruct (nth_error (c0 :: cols0) (pr_col r)) as [c|]; [|discriminate H].
+    destruct (is_null v).
+    + destruct (has_flag (c_flags c) NOT_NULL_FLAG); [discriminate H|]. injection H as <-. reflexivity.
+    + destruct (to_bin v c); try discriminate H. injection H as <-. reflexivity.
+  - destruct (to_text v); try discriminate H. injection H as <-. reflexivity.
+Qed.
+Lemma p_write_cols_col bin cols vs : cols <> [] -> forall r r',
+  p_write_cols bin cols r vs = Some r' -> pr_col r' = (pr_col r + length vs)%nat.
+Proof.
+  intro Hc. induction vs as [|v vs IH]; intros r r' H; cbn [p_write_cols length] in *.
+  - injection H as <-. lia.
+  - destruct (p_write_col bin cols r v) as [r1|] eqn:E; [|discriminate H].
+    rewrite (IH _ _ H), (p_write_col_col _ _ _ _ _ Hc E). lia.
+Qed.
+
+Lemma tcells_defined cols vs : cols <> [] -> forall r r',
+  p_write_cols false cols r vs = Some r' -> exists cs, tcells vs = Some cs.
+Proof.
+  intro Hc. induction vs as [|v vs IH]; intros r r' H; cbn [p_write_cols tcells] in *.
+  - eexists; reflexivity.
+  - destruct (p_write_col false cols r v) as [r1|] eqn:E; [|discriminate H].
+    destruct (p_write_col_text _ _ _ _ Hc E) as (bs & Ht & _).
+    destruct (IH _ _ H) as (cs & ->).
+    unfold to_text, rbind in Ht. unfold tcell.
+    destruct (text_cell v) as [[s|]| |]; try discriminate Ht; eexists; reflexivity.
+Qed.
+Lemma row_of_defined bin cols cur r : cols <> [] ->
+  p_write_cols bin cols prow0 cur = Some r -> exists row, row_of bin cols cur = Some row.
+Proof.
+  intros Hc H. unfold row_of. destruct bin; [eexists; reflexivity|].
+  destruct (tcells_defined _ _ Hc _ _ H) as (cs & ->). eexists; reflexivity.
+Qed.
+Lemma u_flush_defined bin cols cur done r : cols <> [] ->
+  p_write_cols bin cols prow0 cur = Some r -> exists rows, u_flush bin cols cur done = Some rows.
+Proof.
+  intros Hc H. unfold u_flush. destruct cur as [|v cur']; [eexists; reflexivity|].
+  destruct (row_of_defined _ _ _ _ Hc H) as (row & ->). eexists; reflexivity.
+Qed.
+
+Lemma oapp_some {A} (l : list A) o x : oapp l o = Some x -> exists l', o = Some l' /\ x = l ++ l'.
+Proof. destruct o as [l'|]; cbn [oapp]; intro H; [injection H as <-; eauto | discriminate H]. Qed.
+
+(* equations for a resultset with / without columns *)
+Lemma p_end_row_ne bin cols r : cols <> [] ->
+  p_end_row bin cols r =
+    if negb (Nat.eqb (pr_col r) (length cols)) then None
+    else Some ([pr_cur r ++ (if bin then pr_data r else [])], prow0).
+Proof. destruct cols; [congruence | reflexivity]. Qed.
+Lemma p_write_row_ne bin cols r vs : cols <> [] ->
+  p_write_row bin cols r vs =
+    match p_write_cols bin cols r vs with
+    | Some r' => p_end_row bin cols r' | None => None end.
+Proof. destruct cols; [congruence | reflexivity]. Qed.
+Lemma p_finish_ne bin cols r : cols <> [] ->
+  p_finish bin cols r =
+    if Nat.eqb (pr_col r) 0 then Some ([], FEof)
+    else match p_end_row bin cols r with
+         | Some (m, _) => Some (m, FEof) | None => None end.
+Proof. destruct cols; [congruence | reflexivity]. Qed.
+
+Section Prog.
+Variable errtab : N -> option (N * bytes).
+Variable bin : bool.
+
+Lemma pm_r_FinishError_ne cols r code msg : cols <> [] ->
+  pm_r errtab bin cols r (RFinishError code msg) =
+    match p_finish bin cols r, err_msg_of errtab code msg with
+    | Some (m, _), Some e => Some (m ++ [e])
+    | _, _ => None end.
+Proof.
+  intro Hc. rewrite p_finish_ne by exact Hc. destruct cols as [|c0 cols0]; [congruence|].
+  cbn [pm_r pm_q]. destruct (Nat.eqb (pr_col r) 0).
+  - destruct (err_msg_of errtab code msg); reflexivity.
+  - destruct (p_end_row bin (c0 :: cols0) r) as [[m r']|]; [|reflexivity].
+    destruct (err_msg_of errtab code msg); reflexivity.
+Qed.
+
+Lemma un_r_WriteCol_ne cols cur done cnt v e k : cols <> [] ->
+  un_r errtab bin cols cur done cnt (RWriteCol v e k) = un_r errtab bin cols (cur ++ [v]) done cnt k.
+Proof. destruct cols; [congruence | reflexivity]. Qed.
+Lemma un_r_EndRow_ne cols cur done cnt e k : cols <> [] ->
+  un_r errtab bin cols cur done cnt (REndRow e k) =
+    match row_of bin cols cur with
+    | Some r => un_r errtab bin cols [] (done ++ [r]) cnt k | None => None end.
+Proof. destruct cols; [congruence | reflexivity]. Qed.
+Lemma un_r_WriteRow_ne cols cur done cnt vs e k : cols <> [] ->
+  un_r errtab bin cols cur done cnt (RWriteRow vs e k) =
+    match row_of bin cols (cur ++ vs) with
+    | Some r => un_r errtab bin cols [] (done ++ [r]) cnt k | None => None end.
+Proof. destruct cols; [congruence | reflexivity]. Qed.
+Lemma un_r_Finish_ne cols cur done cnt : cols <> [] ->
+  un_r errtab bin cols cur done cnt RFinish =
+    match u_flush bin cols cur done with
+    | Some rows => Some [URows cols rows] | None => None end.
+Proof. destruct cols; [congruence | reflexivity]. Qed.
+Lemma un_r_Drop_ne cols cur done cnt : cols <> [] ->
+  un_r errtab bin cols cur done cnt RDrop =
+    match u_flush bin cols cur done with
+    | Some rows => Some [URows cols rows] | None => None end.
+Proof. destruct cols; [congruence | reflexivity]. Qed.
+Lemma un_r_FinishOne_ne cols cur done cnt k : cols <> [] ->
+  un_r errtab bin cols cur done cnt (RFinishOne k) =
+    match u_flush bin cols cur done with
+    | Some rows => ocons (URows cols rows) (un_q errtab bin k) | None => None end.
+Proof. destruct cols; [congruence | reflexivity]. Qed.
+Lemma un_r_FinishError_ne cols cur done cnt code msg : cols <> [] ->
+  un_r errtab bin cols cur done cnt (RFinishError code msg) =
+    match u_flush bin cols cur done, errtab code with
+    | Some rows, Some (c, st) => Some [URowsErr cols rows c st msg]
+    | _, _ => None end.
+Proof. destruct cols; [congruence | reflexivity]. Qed.
+
+Lemma un_r_FinishOne_nil cur done cnt k :
+  un_r errtab bin [] cur done cnt (RFinishOne k) = ocons (UOk (N.of_nat cnt) 0) (un_q errtab bin k).
+Proof. reflexivity. Qed.
+Lemma pm_r_FinishOne cols r k :
+  pm_r errtab bin cols r (RFinishOne k) =
+    match p_finish bin cols r with
+    | Some (m, f) => oapp m (pm_q errtab bin (Some f) k) | None => None end.
+Proof. reflexivity. Qed.
+Lemma pm_q_Start last cols k :
+  pm_q errtab bin last (QStart cols k) =
+    oapp (fin_msgs last true ++ match cols with [] => [] | _ => column_definitions_msgs cols end)
+         (pm_r errtab bin cols prow0 k).
+Proof. reflexivity. Qed.
+Lemma un_q_Start cols k : un_q errtab bin (QStart cols k) = un_r errtab bin cols [] [] 0 k.
+Proof. reflexivity. Qed.
+
+Lemma err_msg_of_some code msg e : err_msg_of errtab code msg = Some e ->
+  exists c st, errtab code = Some (c, st) /\ e = err_body c st msg.
+Proof.
+  unfold err_msg_of. destruct (errtab code) as [[c st]|]; [|discriminate].
+  intro H. injection H as <-. eauto.
+Qed.
+
+(* ---- definedness ---- *)
+Definition winv (cols : list column) (r : prow) (cur : list value) : Prop :=
+  cols <> [] -> p_write_cols bin cols prow0 cur = Some r.
+
+Lemma pm_un_defined_gen :
+  (forall p last msgs, pm_q errtab bin last p = Some msgs -> exists units, un_q errtab bin p = Some units) /\
+  (forall k cols r cur done cnt msgs, winv cols r cur ->
+     pm_r errtab bin cols r k = Some msgs -> exists units, un_r errtab bin cols cur done cnt k = Some units).
+Proof.
+  apply qrprog_mutind.
+  - (* QStart *) intros cols k IH last msgs H. rewrite pm_q_Start in H. rewrite un_q_Start.
+    apply oapp_some in H. destruct H as (l' & H & _).
+    apply (IH cols prow0 [] [] 0%nat l'); [|exact H]. intros _. reflexivity.
+  - (* QCompleteOne *) intros rows id k IH last msgs H. cbn [pm_q pm_r un_q un_r] in *.
+    apply oapp_some in H. destruct H as (l' & H & _).
+    destruct (IH _ _ H) as (us & ->). eexists; reflexivity.
+  - intros; eexists; reflexivity.
+  - intros code msg last msgs H. cbn [pm_q pm_r un_q un_r] in *. unfold err_unit.
+    destruct (err_msg_of errtab code msg) as [e|] eqn:E; [|discriminate H].
+    destruct (err_msg_of_some _ _ _ E) as (c & st & -> & _). eexists; reflexivity.
+  - intros; eexists; reflexivity.
+  - intros; eexists; reflexivity.
+  - (* RWriteCol *) intros v e k IH cols r cur done cnt msgs Hinv H. cbn [pm_r pm_q] in H.
+    destruct (p_write_col bin cols r v) as [r'|] eqn:E; [|discriminate H].
+    destruct cols as [|c0 cols0] eqn:Ec.
+    + cbn [un_r un_q]. apply (IH [] r' cur done cnt msgs); [intro; congruence | exact H].
+    + rewrite <- Ec in *. assert (Hc : cols <> []) by congruence.
+      rewrite un_r_WriteCol_ne by exact Hc. apply (IH cols r' _ done cnt msgs); [|exact H].
+      intros _. rewrite p_write_cols_app, (Hinv Hc). cbn [p_write_cols]. rewrite E. reflexivity.
+  - (* REndRow *) intros e k IH cols r cur done cnt msgs Hinv H. cbn [pm_r pm_q] in H.
+    destruct (p_end_row bin cols r) as [[m r']|] eqn:E; [|discriminate H].
+    apply oapp_some in H. destruct H as (l' & H & _).
+    destruct cols as [|c0 cols0] eqn:Ec.
+    + cbn [un_r un_q]. apply (IH [] r' cur done (S cnt) l'); [intro; congruence | exact H].
+    + rewrite <- Ec in *. assert (Hc : cols <> []) by congruence.
+      rewrite un_r_EndRow_ne by exact Hc.
+      destruct (row_of_defined _ _ _ _ Hc (Hinv Hc)) as (row & ->).
+      rewrite p_end_row_ne in E by exact Hc.
+      destruct (negb (Nat.eqb (pr_col r) (length cols))); [discriminate E|]. injection E as _ <-.
+      apply (IH cols prow0 [] _ cnt l'); [|exact H]. intros _. reflexivity.
+  - (* RWriteRow *) intros vs e k IH cols r cur done cnt msgs Hinv H. cbn [pm_r pm_q] in H.
+    destruct (p_write_row bin cols r vs) as [[m r']|] eqn:E; [|discriminate H].
+    apply oapp_some in H. destruct H as (l' & H & _).
+    destruct cols as [|c0 cols0] eqn:Ec.
+    + cbn [un_r un_q]. apply (IH [] r' cur done (S cnt) l'); [intro; congruence | exact H].
+    + rewrite <- Ec in *. assert (Hc : cols <> []) by congruence.
+      rewrite un_r_WriteRow_ne by exact Hc. rewrite p_write_row_ne in E by exact Hc.
+      destruct (p_write_cols bin cols r vs) as [r1|] eqn:E1; [|discriminate E].
+      assert (Hw : p_write_cols bin cols prow0 (cur ++ vs) = Some r1).
+      { rewrite p_write_cols_app, (Hinv Hc). exact E1. }
+      destruct (row_of_defined _ _ _ _ Hc Hw) as (row & ->).
+      rewrite p_end_row_ne in E by exact Hc.
+      destruct (negb (Nat.eqb (pr_col r1) (length cols))); [discriminate E|]. injection E as _ <-.
+      apply (IH cols prow0 [] _ cnt l'); [|exact H]. intros _. reflexivity.
+  - (* RFinish *) intros cols r cur done cnt msgs Hinv H.
+    destruct cols as [|c0 cols0] eqn:Ec; [eexists; reflexivity|].
+    rewrite <- Ec in *. assert (Hc : cols <> []) by congruence.
+    rewrite un_r_Finish_ne by exact Hc.
+    destruct (u_flush_defined _ _ _ done _ Hc (Hinv Hc)) as (rows & ->). eexists; reflexivity.
+  - (* RFinishOne *) intros k IH cols r cur done cnt msgs Hinv H. rewrite pm_r_FinishOne in H.
+    destruct (p_finish bin cols r) as [[m f]|]; [|discriminate H].
+    apply oapp_some in H. destruct H as (l' & H & _). destruct (IH _ _ H) as (us & Hus).
+    destruct cols as [|c0 cols0] eqn:Ec; [rewrite un_r_FinishOne_nil, Hus; eexists; reflexivity|].
+    rewrite <- Ec in *. assert (Hc : cols <> []) by congruence.
+    rewrite un_r_FinishOne_ne by exact Hc.
+    destruct (u_flush_defined _ _ _ done _ Hc (Hinv Hc)) as (rows & ->). rewrite Hus.
+    eexists; reflexivity.
+  - (* RFinishError *) intros code msg cols r cur done cnt msgs Hinv H.
+    destruct cols as [|c0 cols0] eqn:Ec.
+    + cbn [pm_q pm_r un_q un_r] in *. unfold err_unit.
+      destruct (err_msg_of errtab code msg) as [e|] eqn:E; [|discriminate H].
+      destruct (err_msg_of_some _ _ _ E) as (c & st & -> & _). eexists; reflexivity.
+    + rewrite <- Ec in *. assert (Hc : cols <> []) by congruence.
+      rewrite pm_r_FinishError_ne in H by exact Hc. rewrite un_r_FinishError_ne by exact Hc.
+      destruct (u_flush_defined _ _ _ done _ Hc (Hinv Hc)) as (rows & ->).
+      destruct (p_finish bin cols r) as [[m f]|]; [|discriminate H].
+      destruct (err_msg_of errtab code msg) as [e|] eqn:E; [|discriminate H].
+      destruct (err_msg_of_some _ _ _ E) as (c & st & -> & _). eexists; reflexivity.
+  - (* RDrop *) intros cols r cur done cnt msgs Hinv H.
+    destruct cols as [|c0 cols0] eqn:Ec; [eexists; reflexivity|].
+    rewrite <- Ec in *. assert (Hc : cols <> []) by congruence.
+    rewrite un_r_Drop_ne by exact Hc.
+    destruct (u_flush_defined _ _ _ done _ Hc (Hinv Hc)) as (rows & ->). eexists; reflexivity.
+Qed.
+
+Lemma ocons_nonempty {A} (x : A) o l : ocons x o = Some l -> l <> [].
+Proof. destruct o; cbn [ocons]; intro H; [injection H as <-; discriminate | discriminate H]. Qed.
+
+Lemma un_r_nonempty k : forall cols cur done cnt units,
+  un_r errtab bin cols cur done cnt k = Some units -> units <> [].
+Proof.
+  induction k as [v e k IH|e k IH|vs e k IH| |k|code msg|]; intros cols cur done cnt units H.
+  - cbn [un_r] in H. destruct cols; eapply IH; exact H.
+  - cbn [un_r] in H. destruct cols; [eapply IH; exact H|].
+    destruct (row_of bin (c :: cols) cur); [eapply IH; exact H | discriminate H].
+  - cbn [un_r] in H. destruct cols; [eapply IH; exact H|].
+    destruct (row_of bin (c :: cols) (cur ++ vs)); [eapply IH; exact H | discriminate H].
+  - cbn [un_r] in H. destruct cols; [injection H as <-; discriminate|].
+    destruct (u_flush bin (c :: cols) cur done); [injection H as <-; discriminate | discriminate H].
+  - destruct cols.
+    + rewrite un_r_FinishOne_nil in H. eapply ocons_nonempty; exact H.
+    + rewrite un_r_FinishOne_ne in H by discriminate.
+      destruct (u_flush bin (c :: cols) cur done); [|discriminate H].
+      eapply ocons_nonempty; exact H.
+  - cbn [un_r] in H. destruct cols.
+    + destruct (err_unit errtab code msg); [injection H as <-; discriminate | discriminate H].
+    + destruct (u_flush bin (c :: cols) cur done); [|discriminate H].
+      destruct (errtab code) as [[c0 st]|]; [injection H as <-; discriminate | discriminate H].
+  - cbn [un_r] in H. destruct cols; [injection H as <-; discriminate|].
+    destruct (u_flush bin (c :: cols) cur done); [injection H as <-; discriminate | discriminate H].
+Qed.
+
+End Prog.
 
 (* when the messages exist, so do the units (same success conditions) *)
 Lemma pm_un_defined errtab bin p msgs :
   pm_q errtab bin None p = Some msgs -> exists units, un_q errtab bin p = Some units.
-Admitted.
+Proof. apply (proj1 (pm_un_defined_gen errtab bin)). Qed.
 
 (* a program that does anything but drop the fresh writer produces a non-empty response *)
 Lemma un_q_nonempty errtab bin p units :
   un_q errtab bin p = Some units -> units = [] -> p = QDrop \/ p = QNoMore.
-Admitted.
+Proof.
+  intros H ->. destruct p as [cols k|r i k|r i|code msg| |]; cbn [un_q] in H; auto; exfalso.
+  - exact (un_r_nonempty _ _ _ _ _ _ _ _ H eq_refl).
+  - exact (ocons_nonempty _ _ _ H eq_refl).
+  - discriminate H.
+  - destruct (err_unit errtab code msg); discriminate H.
+Qed.
 
-Theorem client_render errtab bin p msgs units :
-  errtab_ok errtab -> qprog_ok p -> N.of_nat (qsize p) < 2 ^ 64 ->
-  pm_q errtab bin None p = Some msgs ->
-  un_q errtab bin p = Some units -> units <> [] ->
-  c_response (S (length msgs)) bin msgs = Some (units, []).
-Admitted.
+(* ================= the client on messages ================= *)
+
+Lemma byte_eqb_neq a b : a <> b -> byte_eqb a b = false.
+Proof.
+  intro H. destruct (byte_eqb a b) eqn:E; [|reflexivity]. apply byte_eqb_eq in E. contradiction.
+Qed.
+
+Definition after_rows (f : nat) (bin : bool) (cols : list column) (pre : list rowdata)
+    (x : list rowdata * rows_end * list bytes) : option (list unit_ * list bytes) :=
+  let '(rows, en, r3) := x in
+  match en with
+  | EndErr er => Some ([URowsErr cols (pre ++ rows) (err_code er) (err_state er) (err_msg er)], r3)
+  | EndEof st =>
+      if more st then
+        obind (c_response f bin r3) (fun '(us, rest) => Some (URows cols (pre ++ rows) :: us, rest))
+      else Some ([URows cols (pre ++ rows)], r3)
+  end.
+
+Lemma after_rows_cons f bin cols pre row o :
+  obind (obind o (fun '(rows, e, rest) => Some (row :: rows, e, rest))) (after_rows f bin cols pre) =
+  obind o (after_rows f bin cols (pre ++ [row])).
+Proof.
+  destruct o as [[[rows e] rest]|]; [|reflexivity]. cbn [obind after_rows].
+  rewrite <- app_assoc. reflexivity.
+Qed.
+
+Lemma c_rows_head bin cols b m' tl :
+  c_rows bin cols ((b :: m') :: tl) =
+    if byte_eqb b xff then obind (c_err (b :: m')) (fun e => Some ([], EndErr e, tl))
+    else if byte_eqb b xfe && (length (b :: m') <? 9)%nat then
+      obind (c_eof (b :: m')) (fun st => Some ([], EndEof st, tl))
+    else
+      obind (if bin then obind (c_bin_row cols (b :: m')) (fun vs => Some (RBin vs))
+             else obind (c_text_row (length cols) (b :: m')) (fun cs => Some (RText cs))) (fun row =>
+      obind (c_rows bin cols tl) (fun '(rows, e, rest) => Some (row :: rows, e, rest))).
+Proof. reflexivity. Qed.
+
+Lemma c_rows_eof bin cols st tl : st < 65536 ->
+  c_rows bin cols (eof_body st :: tl) = Some ([], EndEof st, tl).
+Proof.
+  intro H. change (eof_body st) with (xfe :: x00 :: x00 :: le_bytes 2 st).
+  rewrite c_rows_head. change (byte_eqb xfe xff) with false. change (byte_eqb xfe xfe) with true.
+  cbv iota. change (xfe :: x00 :: x00 :: le_bytes 2 st) with (eof_body st).
+  destruct (eof_shape st) as (t & _ & ->). change (5 <? 9)%nat with true. cbn [andb].
+  rewrite eof_roundtrip by exact H. reflexivity.
+Qed.
+Lemma c_rows_err bin cols c st msg tl : c < 65536 -> length st = 5%nat ->
+  c_rows bin cols (err_body c st msg :: tl) =
+    Some ([], EndErr {| err_code := c; err_state := st; err_msg := msg |}, tl).
+Proof.
+  intros Hc Hs. change (err_body c st msg) with (xff :: (le_bytes 2 c ++ x23 :: st ++ msg)).
+  rewrite c_rows_head. change (byte_eqb xff xff) with true. cbv iota.
+  change (xff :: (le_bytes 2 c ++ x23 :: st ++ msg)) with (err_body c st msg).
+  rewrite err_roundtrip by assumption. reflexivity.
+Qed.
+Lemma c_rows_row (bin : bool) cols b m' tl row :
+  byte_eqb b xff = false -> byte_eqb b xfe && (length (b :: m') <? 9)%nat = false ->
+  (if bin then obind (c_bin_row cols (b :: m')) (fun vs => Some (RBin vs))
+   else obind (c_text_row (length cols) (b :: m')) (fun cs => Some (RText cs))) = Some row ->
+  c_rows bin cols ((b :: m') :: tl) =
+    obind (c_rows bin cols tl) (fun '(rows, e, rest) => Some (row :: rows, e, rest)).
+Proof. intros H1 H2 H3. rewrite c_rows_head, H1, H2, H3. reflexivity. Qed.
+
+Lemma c_response_head f bin b m' tl :
+  c_response (S f) bin ((b :: m') :: tl) =
+    if byte_eqb b x00 then
+      obind (c_ok (b :: m')) (fun ok =>
+        if more (ok_status ok) then
+          obind (c_response f bin tl) (fun '(us, rest) => Some (UOk (ok_rows ok) (ok_id ok) :: us, rest))
+        else Some ([UOk (ok_rows ok) (ok_id ok)], tl))
+    else if byte_eqb b xff then
+      obind (c_err (b :: m')) (fun e => Some ([UErr (err_code e) (err_state e) (err_msg e)], tl))
+    else
+      match c_lenenc (b :: m') with
+      | Some (n, []) =>
+        if n =? 0 then None else
+        obind (c_coldefs (N.to_nat n) tl) (fun '(cols, r1) =>
+        match r1 with
+        | [] => None
+        | e :: r2 =>
+          obind (c_eof e) (fun _ => obind (c_rows bin cols r2) (after_rows f bin cols []))
+        end)
+      | _ => None
+      end.
+Proof. reflexivity. Qed.
+
+Lemma c_response_ok f bin r i st tl : r < 2 ^ 64 -> i < 2 ^ 64 -> st < 65536 ->
+  c_response (S f) bin (ok_body r i st :: tl) =
+    if more st then obind (c_response f bin tl) (fun '(us, rest) => Some (UOk r i :: us, rest))
+    else Some ([UOk r i], tl).
+Proof.
+  intros Hr Hi Hs.
+  change (ok_body r i st) with (x00 :: (lenenc r ++ lenenc i ++ le_bytes 2 st ++ [x00; x00])).
+  rewrite c_response_head. change (byte_eqb x00 x00) with true. cbv iota.
+  change (x00 :: (lenenc r ++ lenenc i ++ le_bytes 2 st ++ [x00; x00])) with (ok_body r i st).
+  rewrite ok_roundtrip by assumption. reflexivity.
+Qed.
+Lemma c_response_err f bin c st msg tl : c < 65536 -> length st = 5%nat ->
+  c_response (S f) bin (err_body c st msg :: tl) = Some ([UErr c st msg], tl).
+Proof.
+  intros Hc Hs. change (err_body c st msg) with (xff :: (le_bytes 2 c ++ x23 :: st ++ msg)).
+  rewrite c_response_head. change (byte_eqb xff x00) with false. change (byte_eqb xff xff) with true.
+  cbv iota. change (xff :: (le_bytes 2 c ++ x23 :: st ++ msg)) with (err_body c st msg).
+  rewrite err_roundtrip by assumption. reflexivity.
+Qed.
+Lemma c_response_cols f bin cols tl :
+  cols <> [] -> Nlen cols < 2 ^ 64 -> Forall col_ok cols ->
+  c_response (S f) bin (column_definitions_msgs cols ++ tl) =
+    obind (c_rows bin cols tl) (after_rows f bin cols []).
+Proof.
+  intros Hc Hn F. rewrite column_definitions_shape. cbn [app].
+  destruct (lenenc_head (Nlen cols) Hn) as (b & t & E & _ & Nff & Z0 & _).
+  assert (Hnz : Nlen cols <> 0) by (intro H0; apply Nlen_0 in H0; contradiction).
+  pose proof (lenenc_roundtrip (Nlen cols) [] Hn) as Hrt. rewrite app_nil_r in Hrt.
+  rewrite E in *. rewrite c_response_head.
+  rewrite (byte_eqb_neq b x00) by (intro Hb; apply Z0 in Hb; contradiction).
+  rewrite (byte_eqb_neq b xff) by exact Nff. rewrite Hrt.
+  destruct (N.eqb_spec (Nlen cols) 0) as [H0|_]; [contradiction|].
+  rewrite Nlen_to_nat, <- app_assoc, coldefs_roundtrip by exact F. cbn [obind app].
+  rewrite eof_roundtrip by reflexivity. reflexivity.
+Qed.
+
+Lemma more_status b : more (status_of b) = b.
+Proof. destruct b; reflexivity. Qed.
+Lemma status_lt b : status_of b < 65536.
+Proof. destruct b; reflexivity. Qed.
+
+(* ---- heads of row messages ---- *)
+Lemma text_head v bs : text_ok v -> to_text v = ROk bs ->
+  exists b tl, bs = b :: tl /\ byte_eqb b xff = false /\
+    forall more, byte_eqb b xfe && (length (bs ++ more) <? 9)%nat = false.
+Proof.
+  unfold text_ok, to_text, rbind. intros Hok H.
+  destruct (text_cell v) as [[s|]| |]; try discriminate H; injection H as <-; cbn [enc_cell].
+  - unfold lenenc_str. destruct (lenenc_head (Nlen s) Hok) as (b & t & E & _ & Nff & _ & Hfe).
+    rewrite E. exists b, (t ++ s). split; [reflexivity|]. split; [apply byte_eqb_neq, Nff|].
+    intro more. destruct (byte_eqb b xfe) eqn:Eb; [|reflexivity]. cbn [andb].
+    apply byte_eqb_eq in Eb. specialize (Hfe Eb). rewrite pow2_24 in Hfe. unfold Nlen in Hfe.
+    apply Nat.ltb_ge. cbn [app length]. rewrite !app_length. lia.
+  - exists xfb, []. repeat split.
+Qed.
+
+(* ---- a finished row, as the client reads it ---- *)
+Lemma end_row_client bin cols r cur ms r' row :
+  cols <> [] -> p_write_cols bin cols prow0 cur = Some r ->
+  Forall val_ok cur -> Forall text_ok cur ->
+  p_end_row bin cols r = Some (ms, r') -> row_of bin cols cur = Some row ->
+  r' = prow0 /\ exists b m', ms = [b :: m'] /\
+    forall tl, c_rows bin cols ((b :: m') :: tl) =
+      obind (c_rows bin cols tl) (fun '(rows, e, rest) => Some (row :: rows, e, rest)).
+Proof.
+  intros Hc Hw Fv Ft He Hrow. rewrite p_end_row_ne in He by exact Hc.
+  destruct (Nat.eqb_spec (pr_col r) (length cols)) as [Hcol|]; [|discriminate He].
+  cbn [negb] in He. injection He as <- <-. split; [reflexivity|].
+  pose proof (p_write_cols_col _ _ _ Hc _ _ Hw) as Hlen. cbn [prow0 pr_col Nat.add] in Hlen.
+  assert (Hl : length cur = length cols) by congruence.
+  destruct bin.
+  - destruct (bin_row_shape cols cur r Hc Hl Hw) as (vals & _ & Hcur & _ & _).
+    pose proof (bin_row_decode' cols cur r Hc Hl Fv Hw) as Hd.
+    rewrite Hcur in *. cbn [app] in *. exists x00, (pr_data r). split; [reflexivity|].
+    intro tl. apply c_rows_row; [reflexivity | reflexivity |].
+    rewrite Hd. cbn [obind]. unfold row_of in Hrow. exact Hrow.
+  - destruct (text_row_decode cols cur r Hc Hl Ft Hw) as (cs & Hcs & Hd).
+    unfold row_of in Hrow. rewrite Hcs in Hrow. injection Hrow as <-.
+    destruct cur as [|v cur'].
+    { destruct cols; [congruence | discriminate Hl]. }
+    cbn [p_write_cols] in Hw.
+    destruct (p_write_col false cols prow0 v) as [r1|] eqn:E1; [|discriminate Hw].
+    destruct (p_write_col_text _ _ _ _ Hc E1) as (bs & Hbs & ->).
+    inversion Ft as [|? ? Ftv Ftc]; subst.
+    destruct (text_cells_gen cols cur' Hc _ _ Ftc Hw) as (_ & bs' & _ & Hcur & _).
+    cbn [pr_cur prow0 app] in Hcur.
+    destruct (text_head v bs Ftv Hbs) as (b & t & -> & Hff & Hfe).
+    rewrite app_nil_r. rewrite Hcur in *. cbn [app] in *.
+    exists b, (t ++ bs'). split; [reflexivity|].
+    intro tl. apply c_rows_row; [exact Hff | exact (Hfe bs') |].
+    rewrite Hd. reflexivity.
+Qed.
+
+Lemma flush_client bin cols r cur done ms fz rows :
+  cols <> [] -> p_write_cols bin cols prow0 cur = Some r ->
+  Forall val_ok cur -> Forall text_ok cur ->
+  p_finish bin cols r = Some (ms, fz) -> u_flush bin cols cur done = Some rows ->
+  fz = FEof /\ forall f tl,
+    obind (c_rows bin cols (ms ++ tl)) (after_rows f bin cols done) =
+    obind (c_rows bin cols tl) (after_rows f bin cols rows).
+Proof.
+  intros Hc Hw Fv Ft Hf Hu. rewrite p_finish_ne in Hf by exact Hc.
+  pose proof (p_write_cols_col _ _ _ Hc _ _ Hw) as Hlen. cbn [prow0 pr_col Nat.add] in Hlen.
+  unfold u_flush in Hu. destruct cur as [|v cur'] eqn:Ecur.
+  - rewrite Hlen in Hf. cbn [length Nat.eqb] in Hf. injection Hf as <- <-. injection Hu as <-.
+    split; reflexivity.
+  - rewrite <- Ecur in *.
+    assert (Hnz : Nat.eqb (pr_col r) 0 = false) by (rewrite Hlen, Ecur; reflexivity).
+    rewrite Hnz in Hf.
+    destruct (p_end_row bin cols r) as [[m r']|] eqn:Ee; [|discriminate Hf]. injection Hf as <- <-.
+    destruct (row_of bin cols cur) as [row|] eqn:Er; [|discriminate Hu]. injection Hu as <-.
+    destruct (end_row_client _ _ _ _ _ _ _ Hc Hw Fv Ft Ee Er) as (_ & b & m' & -> & Hrows).
+    split; [reflexivity|]. intros f tl. cbn [app]. rewrite Hrows. apply after_rows_cons.
+Qed.
+
+(* ================= the main induction ================= *)
+Definition qflag (p : qprog) : bool := match p with QNoMore | QDrop => false | _ => true end.
+
+Section Main.
+Variable errtab : N -> option (N * bytes).
+Variable bin : bool.
+Hypothesis Het : errtab_ok errtab.
+
+Lemma pm_q_CompleteOne last r i k :
+  pm_q errtab bin last (QCompleteOne r i k) =
+    oapp (fin_msgs last true) (pm_q errtab bin (Some (FOk r i)) k).
+Proof. reflexivity. Qed.
+Lemma un_q_CompleteOne r i k :
+  un_q errtab bin (QCompleteOne r i k) = ocons (UOk r i) (un_q errtab bin k).
+Proof. reflexivity. Qed.
+
+Lemma pm_q_last last p msgs : pm_q errtab bin last p = Some msgs ->
+  exists msgs', pm_q errtab bin None p = Some msgs' /\ msgs = fin_msgs last (qflag p) ++ msgs'.
+Proof.
+  intro H. destruct p as [cols k|r i k|r i|code msg| |].
+  - rewrite pm_q_Start in *. apply oapp_some in H. destruct H as (l' & -> & ->).
+    cbn [fin_msgs app oapp qflag]. eexists. split; [reflexivity|]. rewrite app_assoc. reflexivity.
+  - rewrite pm_q_CompleteOne in *. apply oapp_some in H. destruct H as (l' & -> & ->).
+    cbn [fin_msgs app oapp qflag]. eexists. split; reflexivity.
+  - cbn [pm_q] in *. injection H as <-. eexists. split; reflexivity.
+  - cbn [pm_q] in *. destruct (err_msg_of errtab code msg); [|discriminate H]. injection H as <-.
+    eexists. split; reflexivity.
+  - cbn [pm_q] in *. injection H as <-. exists []. cbn [fin_msgs qflag]. rewrite app_nil_r.
+    split; reflexivity.
+  - cbn [pm_q] in *. injection H as <-. exists []. cbn [fin_msgs qflag]. rewrite app_nil_r.
+    split; reflexivity.
+Qed.
+Lemma qflag_false p msgs units : qflag p = false ->
+  pm_q errtab bin None p = Some msgs -> un_q errtab bin p = Some units -> msgs = [] /\ units = [].
+Proof.
+  destruct p; try discriminate; intros _ H1 H2; cbn [pm_q un_q fin_msgs] in *;
+    injection H1 as <-; injection H2 as <-; split; reflexivity.
+Qed.
+
+Definition chain_res (fl : bool) (msgs' : list bytes) (us : list unit_) : Prop :=
+  if fl then forall fuel rest, (length msgs' < fuel)%nat ->
+              c_response fuel bin (msgs' ++ rest) = Some (us, rest)
+  else msgs' = [] /\ us = [].
+
+Lemma ok_chain fl msgs' us r i fuel rest :
+  chain_res fl msgs' us -> r < 2 ^ 64 -> i < 2 ^ 64 -> (S (length msgs') < fuel)%nat ->
+  c_response fuel bin ((ok_body r i (status_of fl) :: msgs') ++ rest) = Some (UOk r i :: us, rest).
+Proof.
+  intros Hch Hr Hi Hf. destruct fuel as [|f]; [lia|]. cbn [app].
+  rewrite c_response_ok by (try assumption; apply status_lt). rewrite more_status.
+  unfold chain_res in Hch. destruct fl.
+  - rewrite Hch by lia. reflexivity.
+  - destruct Hch as (-> & ->). reflexivity.
+Qed.
+Lemma eof_chain fl msgs' us cols rows f rest :
+  chain_res fl msgs' us -> (length msgs' < f)%nat ->
+  obind (c_rows bin cols ((eof_body (status_of fl) :: msgs') ++ rest)) (after_rows f bin cols rows) =
+    Some (URows cols rows :: us, rest).
+Proof.
+  intros Hch Hf. cbn [app]. rewrite c_rows_eof by apply status_lt. cbn [obind after_rows].
+  rewrite more_status, app_nil_r. unfold chain_res in Hch. destruct fl.
+  - rewrite Hch by lia. reflexivity.
+  - destruct Hch as (-> & ->). reflexivity.
+Qed.
+
+Definition P_q (p : qprog) : Prop :=
+  forall msgs units, qprog_ok p -> N.of_nat (qsize p) < 2 ^ 64 -> qflag p = true ->
+    pm_q errtab bin None p = Some msgs -> un_q errtab bin p = Some units ->
+    forall fuel rest, (length msgs < fuel)%nat ->
+      c_response fuel bin (msgs ++ rest) = Some (units, rest).
+Definition P_r (k : rprog) : Prop :=
+  forall cols r cur done cnt msgs units, rprog_ok k -> N.of_nat (cnt + rsize k) < 2 ^ 64 ->
+    pm_r errtab bin cols r k = Some msgs -> un_r errtab bin cols cur done cnt k = Some units ->
+    (cols = [] -> pr_col r = cnt -> forall fuel rest, (length msgs < fuel)%nat ->
+       c_response fuel bin (msgs ++ rest) = Some (units, rest)) /\
+    (cols <> [] -> p_write_cols bin cols prow0 cur = Some r ->
+     Forall val_ok cur -> Forall text_ok cur -> forall f rest, (length msgs <= f)%nat ->
+       obind (c_rows bin cols (msgs ++ rest)) (after_rows f bin cols done) = Some (units, rest)).
+
+Lemma chain k f0 msgsq us : P_q k -> qprog_ok k -> N.of_nat (qsize k) < 2 ^ 64 ->
+  pm_q errtab bin (Some f0) k = Some msgsq -> un_q errtab bin k = Some us ->
+  exists msgs', msgsq = fin_msgs (Some f0) (qflag k) ++ msgs' /\ chain_res (qflag k) msgs' us.
+Proof.
+  intros IH Hok Hsz Hpm Hun. destruct (pm_q_last _ _ _ Hpm) as (msgs' & Hpm' & ->).
+  exists msgs'. split; [reflexivity|]. unfold chain_res. destruct (qflag k) eqn:Efl.
+  - intros fuel rest Hf. apply (IH msgs' us Hok Hsz Efl Hpm' Hun fuel rest Hf).
+  - exact (qflag_false _ _ _ Efl Hpm' Hun).
+Qed.
+
+Lemma errtab_unit code msg e u : err_msg_of errtab code msg = Some e -> err_unit errtab code msg = Some u ->
+  exists c st, e = err_body c st msg /\ u = UErr c st msg /\ c < 65536 /\ length st = 5%nat.
+Proof.
+  unfold err_msg_of, err_unit. destruct (errtab code) as [[c st]|] eqn:E; [|discriminate].
+  intros H1 H2. injection H1 as <-. injection H2 as <-. destruct (Het _ _ _ E) as (Hc & Hs).
+  exists c, st. repeat split; assumption.
+Qed.
+
+Lemma oapp_nil {A} (o : option (list A)) : oapp [] o = o.
+Proof. destruct o; reflexivity. Qed.
+
+Lemma main_ind : (forall p, P_q p) /\ (forall k, P_r k).
+Proof.
+  apply qrprog_mutind.
+  - (* QStart *)
+    intros cols k IH msgs units Hok Hsz _ Hpm Hun fuel rest Hf.
+    rewrite pm_q_Start in Hpm. rewrite un_q_Start in Hun. cbn [fin_msgs app] in Hpm.
+    cbn [qprog_ok] in Hok. destruct Hok as (Hn & Fc & Hk). cbn [qsize] in Hsz.
+    apply oapp_some in Hpm. destruct Hpm as (rm & Hpm & ->).
+    destruct (IH cols prow0 [] [] 0%nat rm units Hk ltac:(cbn [Nat.add]; lia) Hpm Hun) as (IH0 & IH1).
+    destruct cols as [|c0 cols0] eqn:Ec.
+    + cbn [app]. apply IH0; [reflexivity | reflexivity | exact Hf].
+    + rewrite <- Ec in *. assert (Hc : cols <> []) by congruence.
+      destruct fuel as [|f]; [lia|]. rewrite <- app_assoc.
+      rewrite c_response_cols by assumption.
+      apply IH1; try assumption; try constructor. rewrite app_length in Hf. lia.
+  - (* QCompleteOne *)
+    intros r i k IH msgs units Hok Hsz _ Hpm Hun fuel rest Hf.
+    rewrite pm_q_CompleteOne in Hpm. rewrite un_q_CompleteOne in Hun. cbn [fin_msgs] in Hpm.
+    rewrite oapp_nil in Hpm. cbn [qprog_ok] in Hok. destruct Hok as (Hr & Hi & Hk). cbn [qsize] in Hsz.
+    destruct (un_q errtab bin k) as [us|] eqn:Eus; [|discriminate Hun]. injection Hun as <-.
+    destruct (chain k _ _ _ IH Hk ltac:(lia) Hpm Eus) as (msgs' & -> & Hch).
+    cbn [fin_msgs app]. apply ok_chain; try assumption; cbn [fin_msgs app length] in Hf; lia.
+  - (* QCompleted *)
+    intros r i msgs units Hok _ _ Hpm Hun fuel rest Hf. cbn [pm_q un_q fin_msgs app] in *.
+    injection Hpm as <-. injection Hun as <-. destruct Hok as (Hr & Hi).
+    destruct fuel as [|f]; [cbn [length] in Hf; lia|]. cbn [app].
+    rewrite c_response_ok by (try assumption; reflexivity). reflexivity.
+  - (* QError *)
+    intros code msg msgs units _ _ _ Hpm Hun fuel rest Hf. cbn [pm_q un_q fin_msgs app] in *.
+    destruct (err_msg_of errtab code msg) as [e|] eqn:Ee; [|discriminate Hpm]. injection Hpm as <-.
+    destruct (err_unit errtab code msg) as [u|] eqn:Eu; [|discriminate Hun]. injection Hun as <-.
+    destruct (errtab_unit _ _ _ _ Ee Eu) as (c & st & -> & -> & Hc & Hs).
+    destruct fuel as [|f]; [cbn [length] in Hf; lia|]. cbn [app].
+    apply c_response_err; assumption.
+  - intros msgs units _ _ Hfl. discriminate Hfl.
+  - intros msgs units _ _ Hfl. discriminate Hfl.
+  - (* RWriteCol *)
+    intros v e k IH cols r cur done cnt msgs units Hok Hsz Hpm Hun.
+    cbn [rprog_ok] in Hok. destruct Hok as (Hv & Ht & Hk). cbn [rsize] in Hsz.
+    cbn [pm_r] in Hpm. destruct (p_write_col bin cols r v) as [r'|] eqn:E; [|discriminate Hpm].
+    split.
+    + intros -> Hcnt. cbn [un_r] in Hun. cbn [p_write_col] in E. injection E as <-.
+      apply (proj1 (IH [] r cur done cnt msgs units Hk ltac:(lia) Hpm Hun) eq_refl Hcnt).
+    + intros Hc Hw Fv Ft. rewrite un_r_WriteCol_ne in Hun by exact Hc.
+      apply (proj2 (IH cols r' (cur ++ [v]) done cnt msgs units Hk ltac:(lia) Hpm Hun) Hc).
+      * rewrite p_write_cols_app, Hw. cbn [p_write_cols]. rewrite E. reflexivity.
+      * apply Forall_app. split; [exact Fv | constructor; [exact Hv | constructor]].
+      * apply Forall_app. split; [exact Ft | constructor; [exact Ht | constructor]].
+  - (* REndRow *)
+    intros e k IH cols r cur done cnt msgs units Hok Hsz Hpm Hun.
+    cbn [rprog_ok] in Hok. cbn [rsize] in Hsz. cbn [pm_r] in Hpm.
+    destruct (p_end_row bin cols r) as [[m r']|] eqn:E; [|discriminate Hpm].
+    apply oapp_some in Hpm. destruct Hpm as (rm & Hpm & ->).
+    split.
+    + intros -> Hcnt. cbn [un_r] in Hun. cbn [p_end_row] in E. injection E as <- <-. cbn [app].
+      apply (proj1 (IH [] _ cur done (S cnt) rm units Hok ltac:(lia) Hpm Hun) eq_refl).
+      cbn [pr_col]. congruence.
+    + intros Hc Hw Fv Ft f rest Hf. rewrite un_r_EndRow_ne in Hun by exact Hc.
+      destruct (row_of bin cols cur) as [row|] eqn:Er; [|discriminate Hun].
+      destruct (end_row_client _ _ _ _ _ _ _ Hc Hw Fv Ft E Er) as (-> & b & m' & -> & Hrows).
+      cbn [app]. rewrite Hrows, after_rows_cons.
+      apply (proj2 (IH cols prow0 [] (done ++ [row]) cnt rm units Hok ltac:(lia) Hpm Hun) Hc);
+        try constructor. cbn [app length] in Hf. lia.
+  - (* RWriteRow *)
+    intros vs e k IH cols r cur done cnt msgs units Hok Hsz Hpm Hun.
+    cbn [rprog_ok] in Hok. destruct Hok as (Hv & Ht & Hk). cbn [rsize] in Hsz. cbn [pm_r] in Hpm.
+    destruct (p_write_row bin cols r vs) as [[m r']|] eqn:E; [|discriminate Hpm].
+    apply oapp_some in Hpm. destruct Hpm as (rm & Hpm & ->).
+    split.
+    + intros -> Hcnt. cbn [un_r] in Hun. cbn [p_write_row p_end_row] in E. injection E as <- <-.
+      cbn [app].
+      apply (proj1 (IH [] _ cur done (S cnt) rm units Hk ltac:(lia) Hpm Hun) eq_refl).
+      cbn [pr_col]. congruence.
+    + intros Hc Hw Fv Ft f rest Hf. rewrite un_r_WriteRow_ne in Hun by exact Hc.
+      rewrite p_write_row_ne in E by exact Hc.
+      destruct (p_write_cols bin cols r vs) as [r1|] eqn:E1; [|discriminate E].
+      assert (Hw1 : p_write_cols bin cols prow0 (cur ++ vs) = Some r1).
+      { rewrite p_write_cols_app, Hw. exact E1. }
+      assert (Fv1 : Forall val_ok (cur ++ vs)) by (apply Forall_app; split; assumption).
+      assert (Ft1 : Forall text_ok (cur ++ vs)) by (apply Forall_app; split; assumption).
+      destruct (row_of bin cols (cur ++ vs)) as [row|] eqn:Er; [|discriminate Hun].
+      destruct (end_row_client _ _ _ _ _ _ _ Hc Hw1 Fv1 Ft1 E Er) as (-> & b & m' & -> & Hrows).
+      cbn [app]. rewrite Hrows, after_rows_cons.
+      apply (proj2 (IH cols prow0 [] (done ++ [row]) cnt rm units Hk ltac:(lia) Hpm Hun) Hc);
+        try constructor. cbn [app length] in Hf. lia.
+  - (* RFinish *)
+    intros cols r cur done cnt msgs units _ Hsz Hpm Hun. cbn [rsize] in Hsz. cbn [pm_r] in Hpm.
+    destruct (p_finish bin cols r) as [[m fz]|] eqn:E; [|discriminate Hpm]. injection Hpm as <-.
+    split.
+    + intros -> Hcnt fuel rest Hf. cbn [un_r] in Hun. injection Hun as <-.
+      cbn [p_finish] in E. injection E as <- <-. cbn [fin_msgs app status_of] in *.
+      destruct fuel as [|f]; [lia|]. rewrite Hcnt.
+      rewrite c_response_ok by (try reflexivity; lia). reflexivity.
+    + intros Hc Hw Fv Ft f rest Hf. rewrite un_r_Finish_ne in Hun by exact Hc.
+      destruct (u_flush bin cols cur done) as [rows|] eqn:Eu; [|discriminate Hun]. injection Hun as <-.
+      destruct (flush_client _ _ _ _ _ _ _ _ Hc Hw Fv Ft E Eu) as (-> & Hfl).
+      rewrite <- app_assoc, Hfl. cbn [fin_msgs].
+      apply (eof_chain false [] [] cols rows f rest); [split; reflexivity|].
+      rewrite app_length in Hf. cbn [fin_msgs length] in Hf |- *. lia.
+  - (* RFinishOne *)
+    intros k IH cols r cur done cnt msgs units Hok Hsz Hpm Hun.
+    cbn [rprog_ok] in Hok. cbn [rsize] in Hsz. rewrite pm_r_FinishOne in Hpm.
+    destruct (p_finish bin cols r) as [[m fz]|] eqn:E; [|discriminate Hpm].
+    apply oapp_some in Hpm. destruct Hpm as (qm & Hpm & ->).
+    split.
+    + intros -> Hcnt fuel rest Hf. rewrite un_r_FinishOne_nil in Hun.
+      destruct (un_q errtab bin k) as [us|] eqn:Eus; [|discriminate Hun]. injection Hun as <-.
+      cbn [p_finish] in E. injection E as <- <-.
+      destruct (chain k _ _ _ IH Hok ltac:(lia) Hpm Eus) as (msgs' & -> & Hch).
+      cbn [fin_msgs app] in *. rewrite Hcnt. apply ok_chain; try assumption; try reflexivity; try lia; cbn [length] in Hf; lia.
+    + intros Hc Hw Fv Ft f rest Hf. rewrite un_r_FinishOne_ne in Hun by exact Hc.
+      destruct (u_flush bin cols cur done) as [rows|] eqn:Eu; [|discriminate Hun].
+      destruct (un_q errtab bin k) as [us|] eqn:Eus; [|discriminate Hun]. injection Hun as <-.
+      destruct (flush_client _ _ _ _ _ _ _ _ Hc Hw Fv Ft E Eu) as (-> & Hfl).
+      destruct (chain k _ _ _ IH Hok ltac:(lia) Hpm Eus) as (msgs' & -> & Hch).
+      rewrite <- app_assoc, Hfl. cbn [fin_msgs app].
+      apply (eof_chain _ _ _ cols rows f rest Hch).
+      rewrite app_length in Hf. cbn [fin_msgs app length] in Hf. lia.
+  - (* RFinishError *)
+    intros code msg cols r cur done cnt msgs units _ _ Hpm Hun.
+    split.
+    + intros -> Hcnt fuel rest Hf. cbn [pm_r un_r] in *.
+      destruct (err_msg_of errtab code msg) as [e|] eqn:Ee; [|discriminate Hpm]. injection Hpm as <-.
+      destruct (err_unit errtab code msg) as [u|] eqn:Eu; [|discriminate Hun]. injection Hun as <-.
+      destruct (errtab_unit _ _ _ _ Ee Eu) as (c & st & -> & -> & Hc & Hs).
+      destruct fuel as [|f]; [cbn [length] in Hf; lia|]. cbn [app].
+      apply c_response_err; assumption.
+    + intros Hc Hw Fv Ft f rest Hf. rewrite un_r_FinishError_ne in Hun by exact Hc.
+      rewrite pm_r_FinishError_ne in Hpm by exact Hc.
+      destruct (p_finish bin cols r) as [[m fz]|] eqn:E; [|discriminate Hpm].
+      destruct (err_msg_of errtab code msg) as [e|] eqn:Ee; [|discriminate Hpm]. injection Hpm as <-.
+      destruct (u_flush bin cols cur done) as [rows|] eqn:Eu; [|discriminate Hun].
+      destruct (err_msg_of_some _ _ _ _ Ee) as (c & st & Etab & ->). rewrite Etab in Hun.
+      injection Hun as <-. destruct (Het _ _ _ Etab) as (Hc5 & Hs5).
+      destruct (flush_client _ _ _ _ _ _ _ _ Hc Hw Fv Ft E Eu) as (_ & Hfl).
+      rewrite <- app_assoc, Hfl. cbn [app]. rewrite c_rows_err by assumption.
+      cbn [obind after_rows err_code err_state err_msg]. rewrite app_nil_r. reflexivity.
+  - (* RDrop *)
+    intros cols r cur done cnt msgs units _ Hsz Hpm Hun. cbn [rsize] in Hsz. cbn [pm_r] in Hpm.
+    destruct (p_finish bin cols r) as [[m fz]|] eqn:E; [|discriminate Hpm]. injection Hpm as <-.
+    split.
+    + intros -> Hcnt fuel rest Hf. cbn [un_r] in Hun. injection Hun as <-.
+      cbn [p_finish] in E. injection E as <- <-. cbn [fin_msgs app status_of] in *.
+      destruct fuel as [|f]; [lia|]. rewrite Hcnt.
+      rewrite c_response_ok by (try reflexivity; lia). reflexivity.
+    + intros Hc Hw Fv Ft f rest Hf. rewrite un_r_Drop_ne in Hun by exact Hc.
+      destruct (u_flush bin cols cur done) as [rows|] eqn:Eu; [|discriminate Hun]. injection Hun as <-.
+      destruct (flush_client _ _ _ _ _ _ _ _ Hc Hw Fv Ft E Eu) as (-> & Hfl).
+      rewrite <- app_assoc, Hfl. cbn [fin_msgs].
+      apply (eof_chain false [] [] cols rows f rest); [split; reflexivity|].
+      rewrite app_length in Hf. cbn [fin_msgs length] in Hf |- *. lia.
+Qed.
+
+End Main.
 
 (* whatever follows the response (the next command's reply) is left untouched: the client is
    command-ready exactly at the end of the response *)
@@ -100,4 +1144,26 @@ Theorem client_render_rest errtab bin p msgs units rest :
   pm_q errtab bin None p = Some msgs ->
   un_q errtab bin p = Some units -> units <> [] ->
   c_response (S (length msgs)) bin (msgs ++ rest) = Some (units, rest).
-Admitted.
+Proof.
+  intros Het Hok Hsz Hpm Hun Hne.
+  apply (proj1 (main_ind errtab bin Het) p msgs units Hok Hsz); try assumption; [|lia].
+  destruct (qflag p) eqn:E; [reflexivity|]. exfalso. apply Hne.
+  exact (proj2 (qflag_false errtab bin p msgs units E Hpm Hun)).
+Qed.
+
+Theorem client_render errtab bin p msgs units :
+  errtab_ok errtab -> qprog_ok p -> N.of_nat (qsize p) < 2 ^ 64 ->
+  pm_q errtab bin None p = Some msgs ->
+  un_q errtab bin p = Some units -> units <> [] ->
+  c_response (S (length msgs)) bin msgs = Some (units, []).
+Proof.
+  intros Het Hok Hsz Hpm Hun Hne.
+  pose proof (client_render_rest errtab bin p msgs units [] Het Hok Hsz Hpm Hun Hne) as H.
+  rewrite app_nil_r in H. exact H.
+Qed.
+
+Print Assumptions client_render.
+Print Assumptions client_render_rest.
+Print Assumptions bin_row_decode.
+Print Assumptions bin_row_bitmap.
+Print Assumptions text_row_decode.
